@@ -125,6 +125,7 @@ fn small_list(r: &mut Rng) -> Vec<String> {
     // plain tagged rules (the category that is re-indexed whenever tags change), one of them
     // without any indexable token
     lines.push("adv$tag=t1".to_string());
+    lines.push("adw$tag=t1".to_string());
     if r.chance(1, 2) {
         lines.push("/pixel-t.gif$tag=t1,image".to_string());
     }
@@ -302,8 +303,11 @@ pub fn run(ctx: &mut Ctx) {
         let strings = msgpack_strings(b);
         let pairs: Vec<usize> = strings.iter().flat_map(|(st, len)| (0..len.saturating_sub(1)).map(move |k| st + k)).collect();
         let n_pairs = (pairs.len() * 2) as u64;
+        // every string replaced as a whole by nil / by the empty string (structure stays valid:
+        // optional text such as a rule's raw line or tag simply goes missing)
+        let n_strnil = (strings.len() * 2) as u64;
         let n_rand = ctx.n(1_500, 20_000);
-        let total = n_prefix + n_flip + n_subst + n_lenpm + n_pairs + n_rand;
+        let total = n_prefix + n_flip + n_subst + n_lenpm + n_pairs + n_strnil + n_rand;
         let sub = format!("s{}", k);
         let mut complete = true;
         for f in 0..total {
@@ -343,6 +347,20 @@ pub fn run(ctx: &mut Ctx) {
                 d[at] = ch[0];
                 d[at + 1] = ch[1];
                 ("utf8-pair-in-string", d)
+            } else if f < n_prefix + n_flip + n_subst + n_lenpm + n_pairs + n_strnil {
+                let g = (f - n_prefix - n_flip - n_subst - n_lenpm - n_pairs) as usize;
+                let (start, len) = strings[g / 2];
+                let hdr = if b[start - 1] & 0xe0 == 0xa0 && (b[start - 1] & 0x1f) as usize == len {
+                    1
+                } else if start >= 2 && b[start - 2] == 0xd9 {
+                    2
+                } else {
+                    3
+                };
+                let mut d = b[..start - hdr].to_vec();
+                d.push(if g % 2 == 0 { 0xc0 } else { 0xa0 });
+                d.extend_from_slice(&b[start + len..]);
+                ("string-to-nil-or-empty", d)
             } else {
                 let mut r = Rng::for_case(seed, "c10.rand", f ^ (k << 32));
                 let mut d = b.clone();
